@@ -74,6 +74,9 @@ def product_factors(t: T) -> List[T]:
     t = strip_wrappers(t)
     m = m_binop(t, "*")
     if m is None:
+        mm = m_arrcall(t, "multiply")
+        if mm is not None and len(mm) == 2:
+            return product_factors(mm[0]) + product_factors(mm[1])
         return [t]
     return product_factors(m[0]) + product_factors(m[1])
 
